@@ -129,4 +129,73 @@ MovesWinS(h, kn) ==
         \o <<MFilter(i, <<Fn2("gt", Col(iv[1]), LitI(0))>>)>>
         \o MapS(SelectSeq(iv, LAMBDA c : t.nm[c] = "g"), LAMBDA c : MGroupBy(i, <<Col(c)>>, FALSE))
 
+---------------------------------------------------------------------------
+(* C14: every rejection rule, in several syntactic positions, after a short history *)
+BadExprs(t) ==      \* <<expression, context in which it is offered>>; context \in {"mutate", "filter", "summarize", "any"}
+    LET iv == Take(VisOfTy(t, "int"), 2)
+        bv == Take(VisOfTy(t, "bool"), 1)
+        a  == IF iv # <<>> THEN <<iv[1]>> ELSE <<>>
+        hid == Take(HidOfTy(t, "int"), 1)
+    IN  \* type errors: int (op) bool, at top level, nested in arithmetic, in a case branch, in an aggregate, via C.
+        Flat(MapS(a, LAMBDA c : Flat(MapS(bv, LAMBDA p :
+            <<Fn2("add", Col(c), Col(p)),
+              Fn2("mul", Fn2("lt", Col(c), Col(p)), LitI(2)),
+              Case1D(Fn2("gt", Col(c), LitI(0)), Col(c), Col(p)),
+              Case1(Col(c), LitI(1)),
+              Agg("sum", Fn2("add", Col(c), Col(p))),
+              AggF("sum", Col(c), Col(c)),
+              Fn2("add", CN(t.nm[c]), CN(t.nm[p])),
+              Fn2("and", Col(p), Col(c)),
+              Fn1("not", Col(c)),
+              Cast(Col(p), "str")>>))))
+        \* function-kind errors: nested aggregate / window
+        \o Flat(MapS(a, LAMBDA c :
+            <<Agg("sum", Agg("max", Col(c))),
+              Agg("sum", Win("row_number", <<>>, <<Ord(Col(c), FALSE, "first")>>)),
+              Win("cum_sum", <<Agg("sum", Col(c))>>, <<Ord(Col(c), FALSE, "first")>>),
+              Fn2("add", Agg("sum", Fn2("add", Agg("min", Col(c)), LitI(1))), LitI(1)),
+              Win("rank", <<>>, <<Ord(Agg("sum", Col(c)), FALSE, "first")>>)>>))
+        \* unknown / dead references and markers outside arrange
+        \o <<CN("zz"), Fn2("add", CN("zz"), LitI(1)), Col(999)>>
+        \o Flat(MapS(a, LAMBDA c : <<Mark("descending", Col(c)), Fn2("add", Mark("nulls_last", Col(c)), LitI(1)),
+                                     Agg("sum", Mark("descending", Col(c)))>>))
+
+MovesErr(h, kn) ==
+    LET i  == Len(h)
+        t  == h[i]
+        iv == VisOfTy(t, "int")
+        bv == VisOfTy(t, "bool")
+        be == BadExprs(t)
+        a  == IF iv # <<>> THEN <<iv[1]>> ELSE <<>>
+        hid == Take(HidOfTy(t, "int"), 1)
+        nErr == Cardinality({q \in DOMAIN h : FALSE})
+    IN  \* offending constructs
+        MapS(be, LAMBDA e : MMutate(i, <<KV("x", e)>>))
+        \o MapS(Take(be, 12), LAMBDA e : MFilter(i, <<Fn2("gt", e, LitI(0))>>))
+        \o MapS(a, LAMBDA c : MFilter(i, <<Col(c)>>))                                           \* non-boolean predicate
+        \o MapS(a, LAMBDA c : MFilter(i, <<Fn2("add", Col(c), LitI(1))>>))
+        \o <<MFilter(i, <<LitN>>)>>
+        \o MapS(a, LAMBDA c : MFilter(i, <<Fn2("gt", Win("row_number", <<>>, <<Ord(Col(c), FALSE, "first")>>), LitI(1))>>))
+        \o MapS(a, LAMBDA c : MFilter(i, <<Fn2("gt", Agg("sum", Col(c)), LitI(1))>>))
+        \o MapS(a, LAMBDA c : MSummarize(i, <<KV("s", Col(c))>>))                                \* not aggregated
+        \o MapS(a, LAMBDA c : MSummarize(i, <<KV("s", Fn2("add", Agg("sum", Col(c)), Col(c)))>>))
+        \o MapS(a, LAMBDA c : MSummarize(i, <<KV("s", Win("row_number", <<>>, <<Ord(Col(c), FALSE, "first")>>))>>))
+        \o MapS(Take(be, 6), LAMBDA e : MSummarize(i, <<KV("s", Agg("max", e))>>))
+        \o <<MSummarize(i, <<>>)>>
+        \o <<MSelect(i, <<CN("zz")>>), MDrop(i, <<CN("zz")>>), MGroupBy(i, <<CN("zz")>>, FALSE)>>
+        \o MapS(hid, LAMBDA c : MSelect(i, <<Col(c)>>))                                          \* re-select a hidden column
+        \o MapS(hid, LAMBDA c : MGroupBy(i, <<Col(c)>>, FALSE))
+        \o <<MSelect(i, <<Col(999)>>), MRename(i, <<[c |-> [k |-> "str", n |-> "zz"], n |-> "y"]>>)>>
+        \o (IF Len(t.vis) >= 2 THEN <<MRename(i, <<[c |-> Col(t.vis[1]), n |-> t.nm[t.vis[2]]]>>)>> ELSE <<>>)   \* duplicate name
+        \o MapS(a, LAMBDA c : MArrange(i, <<Ord(Fn2("add", Col(c), CN("zz")), FALSE, "first")>>))
+        \o (IF t.part # <<>> THEN <<MSlice(i, 2, 0)>> ELSE <<>>)                                  \* slice_head on a grouped table
+        \o (IF t.part # <<>> THEN MapS(SelectSeq(Take(iv, 2), LAMBDA c : c \notin {t.part[q] : q \in DOMAIN t.part}),
+                                       LAMBDA c : MSelect(i, <<Col(c)>>)) ELSE <<>>)           \* hide the grouping column
+        \o MapS(a, LAMBDA c : MSummarize(i, <<KV("s", Agg("sum", Col(c)))>>))
+        \* histories: a few well-formed verbs so that the rules are exercised after different states
+        \o (IF Len(t.vis) >= 2 THEN MapS(a, LAMBDA c : MDrop(i, <<Col(c)>>)) ELSE <<>>)
+        \o MapS(SelectSeq(iv, LAMBDA c : t.nm[c] = "g"), LAMBDA c : MGroupBy(i, <<Col(c)>>, FALSE))
+        \o MapS(a, LAMBDA c : MMutate(i, <<KV(t.nm[c], Fn2("add", Col(c), LitI(1)))>>))
+        \o MapS(a, LAMBDA c : MFilter(i, <<Fn2("gt", Col(c), LitI(0))>>))
+
 =============================================================================
